@@ -50,10 +50,19 @@ def rebuild(code: str, form: str, name: str, is_engine: bool):
     return eval(code.strip(), ns)  # noqa: S307
 
 
-def export(obj, form: str, formatted: bool) -> str:
+METHOD = {"variable": None, "term": "term", "defuzzifier": "defuzzifier", "norm": "norm", "rule_block": "rule_block",
+          "activation": "activation", "rule": "rule"}
+
+
+def export(obj, form: str, formatted: bool, kind: str | None = None) -> str:
     if form == "repr":
         return repr(obj)
-    return fl.PythonExporter(formatted=formatted, encapsulated=(form == "encapsulated")).to_string(obj)
+    ex = fl.PythonExporter(formatted=formatted, encapsulated=(form == "encapsulated"))
+    if kind is not None:
+        # the exporter's dedicated entry point for this kind of component (engine(), input_variable(), term() ...)
+        name = METHOD.get(kind) or ("input_variable" if isinstance(obj, fl.InputVariable) else "output_variable")
+        return getattr(ex, name)(obj)
+    return ex.to_string(obj)
 
 
 def fll_of(obj) -> str:
@@ -108,7 +117,8 @@ def check_engine(ctx, case) -> None:
     ctx.cls("alias:" + repr(alias))
     ctx.cls("form:" + form + ("+black" if formatted and form != "repr" else ""))
     with fl.settings.context(alias=alias, decimals=d):
-        e = build.mk_engine(spec, decimals=d, explicit_weights=True)
+        mk = build.mk_engine_incremental if case.get("incremental") else build.mk_engine
+        e = mk(spec, decimals=d, explicit_weights=True)
         code = export(e, form, formatted)
         try:
             e2 = rebuild(code, form, e.name, True)
@@ -125,17 +135,22 @@ def check_engine(ctx, case) -> None:
             ctx.fail("fll-differs", case, {"first": [(a, b) for a, b in zip(f1.split("\n"), f2.split("\n"))
                                                      if a != b][:3]})
         if precondition(spec, d):
-            o1 = c14_fll.process_rows(build.mk_engine(spec, decimals=d, explicit_weights=True), rows)
+            o1 = c14_fll.process_rows(mk(spec, decimals=d, explicit_weights=True), rows)
             o2 = c14_fll.process_rows(e2, rows)
+            ctx.check("raise:RuntimeError" not in o1 and "raise:RuntimeError" not in o2, "engine-not-processable", case,
+                      {"original": o1, "rebuilt": o2})
             ctx.check(c14_fll.same_outputs(o1, o2), "outputs-differ", case, {"original": o1, "rebuilt": o2})
             ctx.cls("outputs_compared")
         # each component on its own (repr / exporter forms; a sample to bound the cost)
         comps = components(e)
+        comps += [("variable", fl.InputVariable(name="Bare", minimum=0.0, maximum=1.0)),
+                  ("variable", fl.OutputVariable(name="BareOut", minimum=0.0, maximum=1.0)),
+                  ("rule_block", fl.RuleBlock(name="empty", activation=fl.General()))]
         picks = case.get("component_picks") or []
-        chosen = comps if len(comps) <= 6 else [comps[p % len(comps)] for p in picks[:6]]
+        chosen = comps if len(comps) <= 6 else [comps[p % len(comps)] for p in picks[:6]] + comps[-3:][: 1 + picks[0] % 3]
         for kind, c in chosen:
             cform = form
-            ccode = export(c, cform, formatted and cform != "repr")
+            ccode = export(c, cform, formatted and cform != "repr", kind if case.get("dedicated_methods") else None)
             try:
                 c2 = rebuild(ccode, cform, "", False)
             except Exception as ex:  # noqa: BLE001
@@ -194,7 +209,8 @@ def cases(draw):
     form = draw(st.sampled_from(["repr", "repr", "plain", "encapsulated", "encapsulated"]))
     return {"spec": spec, "d": d, "alias": draw(st.sampled_from(ALIASES)), "form": form,
             "formatted": form != "repr" and draw(st.integers(0, 4)) == 0, "rows": rows,
-            "component_picks": draw(st.lists(st.integers(0, 200), min_size=6, max_size=6))}
+            "component_picks": draw(st.lists(st.integers(0, 200), min_size=6, max_size=6)),
+            "dedicated_methods": draw(st.booleans()), "incremental": draw(st.booleans())}
 
 
 def shard(ctx, shard, nshards, ex):
